@@ -158,6 +158,7 @@ type member struct {
 	ctxwait  bool
 	spin     int
 	closeErr error // error its readers report from Close
+	failErr  error // what a failing answer wraps instead of memberErr (e.g. the member's own timeout)
 
 	gate     chan struct{} // closed by the harness: the answer may be given
 	abort    chan struct{} // closed at the very end of the cell, whatever happened
@@ -219,6 +220,9 @@ func (m *member) serve(ctx context.Context) (*trackedReader, error) {
 	m.mu.Unlock()
 	close(m.returned)
 	if !m.ok {
+		if m.failErr != nil {
+			return nil, fmt.Errorf("wrapped: %w", m.failErr)
+		}
 		return nil, fmt.Errorf("wrapped: %w", memberErr[m.idx])
 	}
 	return rd, nil
@@ -999,6 +1003,18 @@ func main() {
 			spins := []int{0, 0, 1, 3, 10}
 			s.m[s.F] = newMember(s.F, c.ok[s.F], c.style == stBoth, spins[rng.IntN(len(spins))])
 			s.m[s.S] = newMember(s.S, c.ok[s.S], c.style != stPrompt, spins[rng.IntN(len(spins))])
+			switch rep % 4 {
+			case 1:
+				// members that fail for context-like reasons of their own (an internal deadline, an
+				// abandoned upstream request) while the caller's context is live
+				s.m[0].failErr = fmt.Errorf("member 0: upstream request: %w", context.DeadlineExceeded)
+				s.m[1].failErr = fmt.Errorf("member 1: upstream request: %w", context.DeadlineExceeded)
+				run.Count("cases_with_context_like_member_errors", 1)
+			case 3:
+				s.m[0].failErr = fmt.Errorf("member 0: upstream request: %w", context.Canceled)
+				s.m[1].failErr = fmt.Errorf("member 1: upstream request: %w", context.Canceled)
+				run.Count("cases_with_context_like_member_errors", 1)
+			}
 			if rep%3 == 2 {
 				// readers whose Close reports an error: everything still has to be released
 				s.m[0].closeErr = errors.New("member 0: connection reset while closing")
